@@ -1,4 +1,302 @@
+/-
+C07 — Service: deposits and fees are conserved across escrow, providers and consumers.
+
+(a) the ledger projections and the three `Prop` invariants the theorems of `Props/C07.lean`
+    are about (deposit escrow, request escrow, owner/provider tallies);
+(b) the executable monitor evaluated by the driver on the *implementation's* observation
+    stream: state clauses after every step and step clauses `pre --op--> post`.
+
+The monitor states the property at full strength.  Where the code is known to violate it the
+failing clause carries the finding's class, decided by an exact accounting of the defect
+(never by "some failure happened"):
+  F-svc-1  charge ≠ Σ fees because a promotion discount applied: the gap must be exactly
+           Σ (undiscounted price − recorded fee) of the requests created in that block;
+  F-svc-2  owner tally keeps a denom that a per-provider withdrawal brought to zero;
+  F-svc-4  a failed multi-denom deduction in `EndBlocker` kept the partial debit: the gap must
+           be exactly what the bank's coin-by-coin debit removes before it hits the
+           unaffordable denom.
+-/
 import Irismod.Model.Service
 
 namespace Irismod.Spec.C07
+open Irismod Irismod.Sdk Irismod.Service
+
+/-! ### ledger projections -/
+
+def sumList : List Nat → Nat
+  | [] => 0
+  | a :: t => a + sumList t
+
+def feeIn (rq : Req) (d : Denom) : Nat := if rq.feeDenom = d then rq.feeAmt else 0
+
+/-- the fee (in `d`) recorded on request `rid` -/
+def reqFee (s : State) (rid : ReqId) (d : Denom) : Nat :=
+  match AMap.get? s.reqs rid with
+  | some rq => feeIn rq d
+  | none => 0
+
+/-- Σ of the fees of the requests still awaiting a response -/
+def activeFee (s : State) (d : Denom) : Nat := sumList (s.active.map (fun rid => reqFee s rid d))
+
+/-- Σ over providers of the earned fees not yet withdrawn -/
+def earnedSum (s : State) (d : Denom) : Nat := AMap.sumIf (fun k : Addr × Denom => k.2 = d) id s.earned
+
+/-- Σ of the deposits recorded on the bindings -/
+def depositSum (s : State) : Nat := AMap.sumBy (fun b : Binding => b.deposit) s.binds
+
+def ownedBy (s : State) (o p : Addr) : Bool := AMap.get? s.owners p == some o
+
+/-- provider-side total of owner `o` -/
+def providersEarned (s : State) (o : Addr) (d : Denom) : Nat :=
+  AMap.sumIf (fun k : Addr × Denom => k.2 = d && ownedBy s o k.1) id s.earned
+
+/-- owner-side tally -/
+def ownerEarned (s : State) (o : Addr) (d : Denom) : Nat :=
+  AMap.sumIf (fun k : Addr × Denom => k.1 = o && k.2 = d) id s.oearned
+
+/-! ### the invariants (statements; proved in `Props/C07.lean`) -/
+
+/-- the deposit escrow holds exactly the recorded deposits -/
+def DepositInv (s : State) : Prop :=
+  ∀ d, Bank.balOf s.bank depAcc d = if d = s.params.base then depositSum s else 0
+
+/-- the request escrow holds exactly the fees of the active requests plus the earned fees -/
+def EscrowInv (s : State) : Prop :=
+  ∀ d, Bank.balOf s.bank reqAcc d = activeFee s d + earnedSum s d
+
+/-- provider-side and owner-side tallies agree -/
+def TallyInv (s : State) : Prop := ∀ o d, providersEarned s o d = ownerEarned s o d
+
+/-! ### monitor -/
+
+structure Fail where
+  clause : String
+  cls    : String := ""
+  deriving Repr, Inhabited
+
+/-- what the monitor remembers along one history: funds the known defects left behind -/
+structure Mon where
+  stranded : AMap Denom Nat := []            -- F-svc-1: escrow surplus without liability
+  stale    : AMap (Addr × Denom) Nat := []   -- F-svc-2: owner-tally entries without provider-side counterpart
+  deriving Repr, Inhabited
+
+def users : List Addr := ["A0", "A1", "A2", "A3", "A4", "A5", "A6", "A7", "A8", "A9"]
+def accounts : List Addr := users ++ [depAcc, reqAcc, fcAcc]
+
+def bal (s : State) (a : Addr) (d : Denom) : Int := (Bank.balOf s.bank a d : Nat)
+
+def earnedOf (s : State) (p : Addr) (d : Denom) : Nat :=
+  AMap.sumIf (fun k : Addr × Denom => k.1 = p && k.2 = d) id s.earned
+
+def owners (s : State) : List Addr := (s.owners.map (·.2)).eraseDups
+
+/-- balances unchanged except for the listed (account, denom) pairs -/
+def balsSameExcept (ds : List Denom) (pre post : State) (ex : List (Addr × Denom)) : Bool :=
+  accounts.all fun a => ds.all fun d => ex.contains (a, d) || bal post a d == bal pre a d
+
+def depositsSameExcept (pre post : State) (ex : List (String × Addr)) : Bool :=
+  (pre.binds.map (·.1) ++ post.binds.map (·.1)).all fun k =>
+    ex.contains k || (AMap.get? post.binds k).map (·.deposit) == (AMap.get? pre.binds k).map (·.deposit)
+
+def earnedSameExcept (ds : List Denom) (pre post : State) (exP exO : List Addr) : Bool :=
+  accounts.all fun a => ds.all fun d =>
+    (exP.contains a || earnedOf post a d == earnedOf pre a d) &&
+    (exO.contains a || ownerEarned post a d == ownerEarned pre a d)
+
+def requestsSame (pre post : State) : Bool :=
+  pre.active.all (post.active.contains ·) && post.active.all (pre.active.contains ·) &&
+  pre.reqs.all (fun e => AMap.get? post.reqs e.1 == some e.2) && post.reqs.all (fun e => AMap.get? pre.reqs e.1 == some e.2)
+
+/-- nothing of the ledger moved -/
+def ledgerSame (ds : List Denom) (pre post : State) : Bool :=
+  balsSameExcept ds pre post [] && depositsSameExcept pre post [] && earnedSameExcept ds pre post [] [] &&
+  requestsSame pre post
+
+/-- state clauses -/
+def depositEscrowOk (ds : List Denom) (s : State) : Bool :=
+  ds.all fun d => Bank.balOf s.bank depAcc d == (if d = s.params.base then depositSum s else 0)
+
+def requestEscrowOk (ds : List Denom) (m : Mon) (s : State) : Bool :=
+  ds.all fun d => Bank.balOf s.bank reqAcc d == activeFee s d + earnedSum s d + AMap.getD m.stranded d 0
+
+def tallyOk (ds : List Denom) (m : Mon) (s : State) : Bool :=
+  (owners s).all fun o => ds.all fun d => ownerEarned s o d == providersEarned s o d + AMap.getD m.stale (o, d) 0
+
+/-- requests created / expired by one `EndBlocker` -/
+def createdIn (pre post : State) : List ReqId := post.active.filter (fun r => !(pre.active.contains r))
+def expiredIn (pre post : State) : List ReqId := pre.active.filter (fun r => !(post.active.contains r))
+
+def priceIn (pre post : State) (rid : ReqId) (d : Denom) : Nat :=
+  match AMap.get? post.reqs rid with
+  | none => 0
+  | some rq =>
+    match AMap.get? pre.binds ((getCtx post rid.ctx).svc, rq.provider) with
+    | none => 0
+    | some b => if b.pricing.denom = d then b.pricing.amount else 0
+
+/-- F-svc-4 oracle: what the coin-by-coin debit of a failed deduction removes, per (consumer, denom),
+computed by the model's `EndBlocker` phases on the implementation's pre-state -/
+def debitLosses (ds : List Denom) (s : State) : List (Addr × Denom × Nat) :=
+  let s1 := (dueIds s.expQ s.height).foldl expireCtx s
+  let r := (dueIds s1.newQ s1.height).foldl (fun (acc : State × List (Addr × Denom × Nat)) id =>
+    let st := acc.1
+    let rc := getCtx st id
+    let st' := newBatch st id
+    let lost :=
+      if rc.state = .running ∧ (getCtx st' id).state = .paused then
+        ds.filterMap fun d =>
+          let a := Bank.balOf st.bank rc.consumer d
+          let b := Bank.balOf st'.bank rc.consumer d
+          if b < a then some (rc.consumer, d, a - b) else none
+      else []
+    (st', acc.2 ++ lost)) (s1, [])
+  r.2
+
+def lossOf (l : List (Addr × Denom × Nat)) (c : Addr) (d : Denom) : Nat :=
+  sumList ((l.filter (fun e => e.1 = c && e.2.1 = d)).map (·.2.2))
+
+/-- `k` successive slashes of a deposit -/
+def slashTimes (fr : Dec) : Nat → Nat → Nat
+  | 0, dep => dep
+  | k + 1, dep => slashTimes fr k (dep - mulTrunc dep fr)
+
+/-- the step clauses of an `EndBlocker` (`next`) -/
+def checkNext (ds : List Denom) (m : Mon) (pre post : State) : Mon × List Fail :=
+  let created := createdIn pre post
+  let expired := expiredIn pre post
+  let losses := debitLosses ds pre
+  -- (charge) consumer balance change = − Σ fees of the requests created for them + Σ refunds of their expired requests
+  let chargeFails := users.flatMap fun c => ds.flatMap fun d =>
+    let feeSum := sumList ((created.filter (fun r => (getCtx post r.ctx).consumer = c)).map (fun r => reqFee post r d))
+    let priceSum := sumList ((created.filter (fun r => (getCtx post r.ctx).consumer = c)).map (fun r => priceIn pre post r d))
+    let refund := sumList ((expired.filter (fun r => (getCtx pre r.ctx).consumer = c)).map (fun r => reqFee pre r d))
+    let actual := bal post c d - bal pre c d
+    let expected : Int := (refund : Int) - (feeSum : Int)
+    let f4 := lossOf losses c d
+    if actual = expected then []
+    else if actual = (refund : Int) - (priceSum : Int) - (f4 : Int) ∧ feeSum ≤ priceSum then
+      (if feeSum < priceSum then [{ clause := "charge-eq-fees", cls := "F-svc-1" : Fail }] else []) ++
+      (if 0 < f4 then [{ clause := "charge-eq-fees", cls := "F-svc-4" : Fail }] else [])
+    else [{ clause := "charge-eq-fees" }]
+  -- (F-svc-1 bookkeeping) the surplus of this block stays in the escrow
+  let surplus : AMap Denom Nat := ds.foldl (fun acc d =>
+    let fee := sumList (created.map (fun r => reqFee post r d))
+    let price := sumList (created.map (fun r => priceIn pre post r d))
+    if fee < price then AMap.set acc d (AMap.getD acc d 0 + (price - fee)) else acc) m.stranded
+  -- (expiry) exactly the requests whose expiration height is this block leave the active set
+  let expiryFails :=
+    (if pre.active.all (fun r => (post.active.contains r) == !(((AMap.get? pre.reqs r).map (·.expH)) == some pre.height))
+     then [] else [{ clause := "expire-at-expiration-height" : Fail }])
+  -- (slash) each expired request slashes its binding once: floor(deposit · fraction), deposit escrow → fee collector
+  let slashFails :=
+    let perBinding := pre.binds.all fun e =>
+      let k := (expired.filter (fun r => (getCtx pre r.ctx).svc = e.1.1 &&
+                  ((AMap.get? pre.reqs r).map (·.provider)) == some e.1.2)).length
+      ((AMap.get? post.binds e.1).map (·.deposit)) == some (slashTimes pre.params.slash k e.2.deposit)
+    let moved : Int := (depositSum pre : Int) - (depositSum post : Int)
+    let base := pre.params.base
+    if perBinding ∧ bal post fcAcc base - bal pre fcAcc base = moved ∧ bal pre depAcc base - bal post depAcc base = moved
+      ∧ ds.all (fun d => d = base || (bal post fcAcc d == bal pre fcAcc d && bal post depAcc d == bal pre depAcc d))
+    then [] else [{ clause := "slash-exact" : Fail }]
+  -- (frame) earned tallies do not move in an end block; non-consumer user balances neither (covered by charge)
+  let frameFails := if earnedSameExcept ds pre post [] [] then [] else [{ clause := "endblock-earned-frame" : Fail }]
+  let escrowFail :=
+    if surplus != m.stranded then [{ clause := "request-escrow-eq-liabilities", cls := "F-svc-1" : Fail }] else []
+  ({ m with stranded := surplus }, chargeFails ++ expiryFails ++ slashFails ++ frameFails ++ escrowFail)
+
+/-- accepted `respond`: fee − ⌊fee·tax⌋ to the provider's and owner's tallies, the tax to the fee collector -/
+def checkRespond (ds : List Denom) (pre post : State) (provider : Addr) (rid : ReqId) : List Fail :=
+  match AMap.get? pre.reqs rid with
+  | none => [{ clause := "respond-unknown-request" }]
+  | some rq =>
+    let d := rq.feeDenom
+    let tax := mulTrunc rq.feeAmt pre.params.tax
+    let net := rq.feeAmt - tax
+    let owner := AMap.getD pre.owners provider ""
+    if tax ≤ rq.feeAmt ∧
+       bal post fcAcc d = bal pre fcAcc d + tax ∧ bal post reqAcc d = bal pre reqAcc d - tax ∧
+       balsSameExcept ds pre post [(fcAcc, d), (reqAcc, d)] ∧
+       earnedOf post provider d = earnedOf pre provider d + net ∧
+       ownerEarned post owner d = ownerEarned pre owner d + net ∧
+       (ds.all fun d' => d' = d || (earnedOf post provider d' == earnedOf pre provider d' && ownerEarned post owner d' == ownerEarned pre owner d')) ∧
+       earnedSameExcept ds pre post [provider] [owner] ∧ depositsSameExcept pre post []
+    then [] else [{ clause := "respond-fee-split" }]
+
+/-- accepted withdrawal: exactly the recorded earned fees leave the escrow for the withdraw address -/
+def checkWithdraw (ds : List Denom) (m : Mon) (pre post : State) (owner : Addr) (provider : Option Addr) : Mon × List Fail :=
+  let wdAddr := AMap.getD pre.wd owner owner
+  let paid (d : Denom) : Nat := match provider with
+    | some p => earnedOf pre p d
+    | none => ownerEarned pre owner d
+  let moneyOk : Bool := ds.all fun d =>
+    (if wdAddr = reqAcc then true
+     else bal post wdAddr d == bal pre wdAddr d + paid d && bal post reqAcc d == bal pre reqAcc d - paid d) &&
+    balsSameExcept ds pre post (ds.flatMap fun d => [(wdAddr, d), (reqAcc, d)])
+  let cleared : Bool := match provider with
+    | some p => ds.all fun d => earnedOf post p d == 0
+    | none => ds.all fun d => ownerEarned post owner d == 0 &&
+        (pre.owners.all fun e => e.2 != owner || earnedOf post e.1 d == 0)
+  let base : List Fail := if moneyOk ∧ cleared ∧ depositsSameExcept pre post [] then [] else [{ clause := "withdraw-exact" }]
+  match provider with
+  | none => ({ m with stale := m.stale.filter (fun e => e.1.1 ≠ owner) }, base)
+  | some p =>
+    -- the owner-side tally must drop by what the provider withdrew; F-svc-2 leaves a denom that reached zero in place
+    let res := ds.foldl (fun (acc : Mon × List Fail) d =>
+      let pe := earnedOf pre p d
+      let oe := ownerEarned pre owner d
+      let oe' := ownerEarned post owner d
+      if oe' + pe = oe then acc
+      else if pe ≠ 0 ∧ oe' = oe ∧ pe + AMap.getD m.stale (owner, d) 0 = oe ∧
+              !(coinsEq (entriesOf pre.earned p) (entriesOf pre.oearned owner)) then
+        ({ acc.1 with stale := AMap.set acc.1.stale (owner, d) (AMap.getD acc.1.stale (owner, d) 0 + pe) },
+         acc.2 ++ [{ clause := "owner-tally-eq-provider-tallies", cls := "F-svc-2" : Fail }])
+      else (acc.1, acc.2 ++ [{ clause := "owner-tally-eq-provider-tallies" : Fail }])) (m, base)
+    -- a withdrawal that empties the owner-side entries also drops stale ones
+    let m' := if (ds.all fun d => ownerEarned post owner d == 0) then { res.1 with stale := res.1.stale.filter (fun e => e.1.1 ≠ owner) } else res.1
+    (m', res.2)
+
+/-- accepted deposit movements -/
+def checkDeposit (ds : List Denom) (pre post : State) (owner provider : Addr) (svc : String) (amt : Nat) (isBind : Bool) : List Fail :=
+  let base := pre.params.base
+  let before := if isBind then 0 else ((AMap.get? pre.binds (svc, provider)).map (·.deposit)).getD 0
+  if ((AMap.get? post.binds (svc, provider)).map (·.deposit)) == some (before + amt) ∧
+     (owner = depAcc ∨ (bal post owner base = bal pre owner base - amt ∧ bal post depAcc base = bal pre depAcc base + amt)) ∧
+     balsSameExcept ds pre post [(owner, base), (depAcc, base)] ∧ depositsSameExcept pre post [(svc, provider)] ∧
+     earnedSameExcept ds pre post [] [] ∧ requestsSame pre post
+  then [] else [{ clause := "deposit-move-exact" }]
+
+def checkRefundDeposit (ds : List Denom) (pre post : State) (provider : Addr) (svc : String) : List Fail :=
+  let base := pre.params.base
+  match AMap.get? pre.binds (svc, provider) with
+  | none => [{ clause := "refund-deposit-exact" }]
+  | some b =>
+    if ((AMap.get? post.binds (svc, provider)).map (·.deposit)) == some 0 ∧
+       bal post b.owner base = bal pre b.owner base + b.deposit ∧ bal post depAcc base = bal pre depAcc base - b.deposit ∧
+       balsSameExcept ds pre post [(b.owner, base), (depAcc, base)] ∧ depositsSameExcept pre post [(svc, provider)] ∧
+       earnedSameExcept ds pre post [] [] ∧ requestsSame pre post
+    then [] else [{ clause := "refund-deposit-exact" }]
+
+def coinsBase (s : State) (c : Coins) : Nat := Coins.amountOf c s.params.base
+
+/-- one monitor step; `accepted = false`: rejected or panicked -/
+def check (ds : List Denom) (m : Mon) (pre : State) (op : Op) (accepted : Bool) (post : State) : Mon × List Fail :=
+  let (m1, stepFails) : Mon × List Fail :=
+    if !accepted then (m, if ledgerSame ds pre post then [] else [{ clause := "rejected-unchanged" }])
+    else match op with
+      | .next _ => checkNext ds m pre post
+      | .skip _ _ => (m, [])      -- several blocks in one observation: state clauses only (not generated for monitoring)
+      | .respond provider (some rid) _ _ _ => (m, checkRespond ds pre post provider rid)
+      | .withdraw owner provider => checkWithdraw ds m pre post owner (some provider)
+      | .withdrawK owner provider => checkWithdraw ds m pre post owner provider
+      | .bind owner provider svc dep _ _ _ => (m, checkDeposit ds pre post owner provider svc (coinsBase pre dep) true)
+      | .updateBinding owner provider svc dep _ _ _ => (m, checkDeposit ds pre post owner provider svc (coinsBase pre dep) false)
+      | .enable owner provider svc dep => (m, checkDeposit ds pre post owner provider svc (coinsBase pre dep) false)
+      | .refundDeposit _ provider svc => (m, checkRefundDeposit ds pre post provider svc)
+      | _ => (m, if ledgerSame ds pre post then [] else [{ clause := "no-ledger-effect" }])
+  let stateFails :=
+    (if depositEscrowOk ds post then [] else [{ clause := "deposit-escrow-eq-deposits" : Fail }]) ++
+    (if requestEscrowOk ds m1 post then [] else [{ clause := "request-escrow-eq-liabilities" : Fail }]) ++
+    (if tallyOk ds m1 post then [] else [{ clause := "owner-tally-eq-provider-tallies" : Fail }])
+  (m1, stepFails ++ stateFails)
+
 end Irismod.Spec.C07
